@@ -252,9 +252,22 @@ inline Arg describe(const std::wstring_view &v) { return text_arg(utf8_of(v.begi
 inline Arg describe(const std::u32string_view &v) { return text_arg(utf8_of(v.begin(), v.end()), "std::u32string_view"); }
 inline Arg describe(const std::u16string_view &v) { return text_arg(utf8_of16(v), "std::u16string_view"); }
 
+// A user-defined argument type whose formatter renders through ST::format itself and forwards the text ("render, then
+// pad as a string") - a format call that starts while another one is running on the same thread.
+struct Nested {
+    long a;
+    ST::string b;
+};
+inline void format_type(const ST::format_spec &format, ST::format_writer &output, const Nested &v)
+{
+    const ST::string inner = ST::format("<{}:{}>", v.a, v.b);
+    ST::format_string(format, output, inner.c_str(), inner.size());
+}
+inline Arg describe(const Nested &v) { return text_arg("<" + std::to_string(v.a) + ":" + S(v.b.c_str(), v.b.size()) + ">", "Nested (formatter calling ST::format)"); }
+
 template <typename... T> inline std::vector<Arg> describe_all(const T &...a) { return std::vector<Arg>{describe(a)...}; }
 
-static const int NSHAPES = 48;
+static const int NSHAPES = 50;
 
 // Calls `sink(fmt, args...)` with the typed arguments of `shape`; fills *desc.
 template <typename Sink>
@@ -314,6 +327,8 @@ inline void call_shape(int shape, const Values &v, const char *fmt, std::vector<
         SH(45, v.cstr, v.i)
         SH(46, v.b, v.ll, v.st)
         SH(47, v.i, v.i, v.i, v.i, v.i)
+        SH(48, Nested{v.l, v.st})
+        SH(49, v.i, Nested{v.ll, v.st}, v.b)
     default: return;
     }
 #undef SH
